@@ -104,6 +104,7 @@ impl Compiler {
             .unwrap_or("<source>");
         let parsed_story = includes::parse_story_with_includes(source, &file_handler, source_name)?;
         let parsed_story = consts::resolve(parsed_story);
+        consts::check_global_initial_values(&parsed_story)?;
         validator::validate(&parsed_story)?;
         emitter::story_to_json_string(&parsed_story, self.options.count_all_visits)
             .map_err(|e| CompilerError::invalid_source(e.to_string()))
